@@ -767,7 +767,7 @@ func gcAllocs() uint64 {
 func gcHold() func() {
 	if gcDepth == 0 {
 		gcOldPercent = debug.SetGCPercent(-1)
-		gcOldLimit = debug.SetMemoryLimit(6 << 30)
+		gcOldLimit = debug.SetMemoryLimit(3 << 30)
 		gcAllocsAtLast = gcAllocs()
 	}
 	gcDepth++
